@@ -472,11 +472,14 @@ func (el *eventloop) msgTimeout() {
 			v.Done = true
 		}
 		msg.Error = codec.ErrMsgRequestTimeout
+		msg.FragDoneNumber = len(msg.Body)
+		msg.RspBody = append(msg.RspBody[:0], codec.ErrMsgRequestTimeout.Bytes()...)
+		msg.Done = true
 		if c == nil || !c.IsOpened() {
 			logging.Warnf("[%dm|%df][%dc] try to send request timeout but client already closed", frag.MsgId(), frag.Id, frag.OwnerFd())
 			continue
 		}
-		c.AsyncWrite(codec.ErrMsgRequestTimeout.Bytes(), nil)
+		el.flushClient(c.(*conn))
 		logging.Warnf("[%dm|%df][%dc] request timeout, consider raising config '[proxy]timeout=%d', send res: %s", frag.MsgId(), frag.Id, frag.OwnerFd(), el.engine.opts.RedisRequestTimeout, codec.ErrMsgRequestTimeout.ShortString())
 	}
 }
